@@ -37,6 +37,7 @@ type schedReader struct {
 	errAt       int
 	cur         int
 	eofWithData bool // the read that reaches the end returns its data together with io.EOF
+	errWithData bool // the read that reaches the failure offset returns its data together with the error (io.Reader allows it)
 	phase       int  // 0: fragment, 1: complete the line
 	fi          int
 	Calls       int
@@ -88,6 +89,9 @@ func (r *schedReader) Read(p []byte) (int, error) {
 	r.cur += n
 	if r.eofWithData && r.cur >= len(r.data) && r.errAt > len(r.data) {
 		return n, io.EOF
+	}
+	if r.errWithData && r.errAt <= len(r.data) && r.cur >= r.errAt {
+		return n, errInjected
 	}
 	return n, nil
 }
@@ -149,8 +153,8 @@ func docSerials(pj *simdjson.ParsedJson) ([]int, error) {
 }
 
 // runStream executes one behaviour.
-func runStream(data []byte, ends []int, frags []int, errAt int, finOrder []int, useReuse bool, eofWithData bool) (items []streamItem, closed bool, problem string) {
-	rd := &schedReader{data: data, ends: ends, frags: frags, errAt: errAt, eofWithData: eofWithData}
+func runStream(data []byte, ends []int, frags []int, errAt int, finOrder []int, useReuse bool, eofWithData bool, errWithData bool) (items []streamItem, closed bool, problem string) {
+	rd := &schedReader{data: data, ends: ends, frags: frags, errAt: errAt, eofWithData: eofWithData, errWithData: errWithData}
 	res := make(chan simdjson.Stream, 1)
 	var reuse chan *simdjson.ParsedJson
 	if useReuse {
@@ -402,9 +406,9 @@ func gstream(args []string) error {
 			rep.Count("behaviours_skipped_after_4_hangs", 1)
 			continue
 		}
-		got, closed, problem := runStream(data, ends, b.frags, b.errAt, b.fin, i%2 == 1, i%3 == 2)
+		got, closed, problem := runStream(data, ends, b.frags, b.errAt, b.fin, i%2 == 1, i%3 == 2, i%4 >= 2)
 		rep.Evaluations++
-		cfg := map[string]interface{}{"stream": fmt.Sprintf("%q", data), "reads_reach": b.frags, "reader_fails_at": b.errAt, "completion_order": b.fin, "reuse": i%2 == 1, "last_read_returns_data_and_eof": i%3 == 2}
+		cfg := map[string]interface{}{"stream": fmt.Sprintf("%q", data), "reads_reach": b.frags, "reader_fails_at": b.errAt, "completion_order": b.fin, "reuse": i%2 == 1, "last_read_returns_data_and_eof": i%3 == 2, "failing_read_returns_data_and_error": i%4 >= 2}
 		sig := fmt.Sprintf("%q:%v:%d:%v", data, b.frags, b.errAt, b.fin)
 		if problem != "" {
 			hangs++
